@@ -309,9 +309,9 @@ theorem split_at_pair {α : Type} (l : List α) (p : Nat) (h1 : 1 ≤ p) (h2 : p
   rw [e2] at e1
   exact e1
 
-theorem leftPermFixed_dims {K : Type} [Add K] [Mul K] [Zero K] [One K]
+theorem leftPerm_dims {K : Type} [Add K] [Mul K] [Zero K] [One K]
     (pre : List Nat) (sq sp : Nat) (post : List Nat) :
-    ∃ M : DMat K, leftPermFixed (K := K) (pre.length + 1) (pre ++ sq :: sp :: post) = .ok M ∧
+    ∃ M : DMat K, leftPerm (K := K) (pre.length + 1) (pre ++ sq :: sp :: post) = .ok M ∧
       M.r = prodL pre * (sp * sq) * prodL post ∧ M.c = prodL pre * (sq * sp) * prodL post := by
   have h1 : (pre ++ sq :: sp :: post)[pre.length + 1]? = some sp := by
     rw [List.getElem?_append_right (by omega)]; simp
@@ -320,8 +320,23 @@ theorem leftPermFixed_dims {K : Type} [Add K] [Mul K] [Zero K] [One K]
   have h4 : (pre ++ sq :: sp :: post).drop (pre.length + 1 + 1) = post := by
     have : pre ++ sq :: sp :: post = (pre ++ [sq, sp]) ++ post := by simp
     rw [this, List.drop_left' (by simp)]
-  unfold leftPermFixed
-  simp only [h1, h2, h3, h4, bind, Except.bind, pure, Except.pure]
+  -- the coded conditionals agree with the empty products
+  have hhead : (if pre.length + 1 < 2 then 1 else prodL pre) = prodL pre := by
+    split
+    · have : pre = [] := List.length_eq_zero_iff.mp (by omega)
+      subst this; rfl
+    · rfl
+  have htail : (if pre.length + 1 < (pre ++ sq :: sp :: post).length - 1 then prodL post else 1) = prodL post := by
+    split
+    · rfl
+    · rename_i h
+      have hl : (pre ++ sq :: sp :: post).length = pre.length + 2 + post.length := by
+        simp only [List.length_append, List.length_cons]; omega
+      rw [hl] at h
+      have : post = [] := List.length_eq_zero_iff.mp (by omega)
+      subst this; rfl
+  unfold leftPerm
+  simp only [h1, h2, h3, h4, hhead, htail, bind, Except.bind, pure, Except.pure]
   exact ⟨_, rfl, by simp [DMat.kron, DMat.eye], by simp [DMat.kron, DMat.eye]⟩
 
 end QM.C07
